@@ -787,10 +787,7 @@ class ExcelCompiler:
             self.log.debug(f"Evaluating: {cell_range.address}, {cell_range.python_code}")
             if cell_range.address.is_unbounded_range:
                 bounded_addr = str(self.eval(cell_range))
-                bounded_addr_cell = self.cell_map.get(bounded_addr)
-                if bounded_addr_cell.value is None:
-                    self._evaluate_range(bounded_addr)
-                data = bounded_addr_cell.value
+                data = self._evaluate_range(bounded_addr)
 
             elif cell_range.formula is None:
                 data = tuple(
